@@ -82,17 +82,24 @@ structure WfParts (I : IState) : Prop where
   tnsPref : "tns" ∉ I.staticNs.map (·.1)
   imports : ∀ i ∈ I.graph, (I.cls i).kind = .builtin ∨ (I.cls i).ns ∈ I.imports.map (·.1)
   importsTns : I.tns ∈ I.imports.map (·.1)
+  consistent : ∀ r1 ∈ I.requests, ∀ r2 ∈ I.requests, r1.1 = r2.1 → partsOf I r1.2 = partsOf I r2.2
+  faultTns : ∀ m ∈ allMethods I, ∀ f ∈ m.faults, (I.cls f).ns = I.tns
 
 theorem wf_unpack (I : IState) (h : I.wf = true) : WfParts I := by
-  simp only [IState.wf, Bool.and_eq_true, decide_eq_true_eq, List.all_eq_true, Bool.not_eq_true',
-    List.contains_eq_mem, decide_eq_false_iff_not, List.mem_range, Bool.or_eq_true, beq_iff_eq] at h
-  obtain ⟨⟨⟨⟨⟨⟨⟨⟨⟨h1, h2⟩, h3⟩, h4⟩, h5⟩, h6⟩, h7⟩, h8⟩, h9⟩, h10⟩ := h
-  exact ⟨h1, h2, h3, h4, h5, by simpa using h6, h7, h8, h9, h10⟩
+  simp only [IState.wf, IState.wfCore, IState.faultsTns, Bool.and_eq_true, decide_eq_true_eq, List.all_eq_true,
+    Bool.not_eq_true', List.contains_eq_mem, decide_eq_false_iff_not, List.mem_range, Bool.or_eq_true, beq_iff_eq,
+    bne_iff_ne, ne_eq] at h
+  obtain ⟨⟨⟨⟨⟨⟨⟨⟨⟨⟨⟨h1, h2⟩, h3⟩, h4⟩, h5⟩, h6⟩, h7⟩, h8⟩, h9⟩, h10⟩, h11⟩, h12⟩ := h
+  refine ⟨h1, h2, h3, h4, h5, by simpa using h6, h7, h8, h9, h10, ?_, h12⟩
+  intro r1 hr1 r2 hr2 he
+  rcases h11 r1 hr1 r2 hr2 with h | h
+  · exact absurd he h
+  · exact h
 
 structure MethParts (I : IState) (m : Meth) : Prop where
   inNs : (I.cls m.inMsg).elemNs I.tns = I.tns
   outNs : (I.cls m.outMsg).elemNs I.tns = I.tns
-  faultNs : ∀ f ∈ m.faults, (I.cls f).ns = I.tns
+  plain : ∀ i ∈ (m.inHeader.getD []) ++ (m.outHeader.getD []), (I.cls i).subName = none ∧ (I.cls i).wsdlPart = none
   hdrs : ∀ i ∈ (m.inHeader.getD []) ++ (m.outHeader.getD []) ++ m.faults, i ∈ I.graph ∧ (I.cls i).kind = .complex
   inOk : (m.inMsg ∈ I.graph ∧ (I.cls m.inMsg).kind = .complex) ∨ I.typeKeyOk m.inMsg = true
   outOk : (m.outMsg ∈ I.graph ∧ (I.cls m.outMsg).kind = .complex) ∨ I.typeKeyOk m.outMsg = true
@@ -160,7 +167,7 @@ theorem wsdl_refs_closed_general (F : Facts07) (hF : F.headerMsgNs = .tns) (e : 
         simp only [Doc.msgDefined, elemQN, mp.outNs, this, beq_self_eq_true, Bool.true_and]
         exact mem_mnames_any _ _ h2
       · have := hdecl (I.cls f').tn
-        simp only [Doc.msgDefined, mp.faultNs f' hf', this, beq_self_eq_true, Bool.true_and]
+        simp only [Doc.msgDefined, hw.faultTns m hm f' hf', this, beq_self_eq_true, Bool.true_and]
         exact mem_mnames_any _ _ (h3 f' hf')
     · have hfrom := bindingsLoop_from F I (allMethods I) I.services
         (fun s hs m hm => mem_allMethods I s hs m hm) ⟨[], false, []⟩ (fun b hb => by cases hb)
